@@ -197,6 +197,12 @@ Definition set_slice (te : tenv) (heap : list rcell) (dest : gtype) (m : dval) :
                end
              end
       | DBytes [] => Ok (zero te dest)
+      | DBytes bs =>
+        (* ConvertSliceValueType on a byte slice: element-wise; only an interface element accepts a uint8 *)
+        match e with
+        | TIface => Ok (DSlice TIface (map (DInt KUint8) bs))
+        | _ => Err ECodec
+        end
       | _ => Err ECodec
       end
     | _ => Unmodelled
